@@ -1,7 +1,1139 @@
-//! Lane `requests` (stub).
+//! Lane `requests` (C02): the REAL `Ldap` handle over an in-memory transport (`tokio::io::duplex`),
+//! a scripted server which answers every request with a minimal success response and hands every
+//! byte the client wrote to the lane.
+//!   O  spec.req.dec <hex of the REAL bytes>   = `<id> <ctrls> <request asked>` (value sets sorted)
+//!   M  req.enc <id> <ctrls> <request, sets in the wire order observed>  = hex of the REAL bytes
+//!   M  handle.run <script>                    = observed transcript (messages + handle fields per call)
+//!   R  the one-shot law evaluated here on the observed transcript; nothing sent by refused calls
+use crate::fmtx::*;
+use crate::lanes::hostile::outer_total;
 use crate::out::Out;
 use crate::rng::Rng;
+use futures_util::FutureExt;
+use ldap3::controls::RawControl;
+use ldap3::exop::Exop;
+use ldap3::{DerefAliases, Ldap, LdapConnAsync, LdapError, Mod, Scope, SearchOptions};
+use lber::parse::parse_tag;
+use lber::structure::{StructureTag, PL};
+use std::collections::{BTreeMap, HashSet};
+use std::panic::AssertUnwindSafe;
+use std::time::Duration;
+use tokio::io::{AsyncReadExt, AsyncWriteExt};
 
-pub fn run(_thorough: bool, _rng: Rng, out: Out) {
-    out.finish("stub lane: nothing generated yet");
+/// valid filter strings with the RFC 4511 Filter element they denote (written by hand from RFC 4515/4511)
+const FILTERS: &[(&str, &str)] = &[
+    ("(objectClass=*)", "(P 2 7 6f626a656374436c617373)"),
+    ("(cn=abc)", "(C 2 3 (P 0 4 636e) (P 0 4 616263))"),
+    ("(&(a=b)(!(c=d)))", "(C 2 0 (C 2 3 (P 0 4 61) (P 0 4 62)) (C 2 2 (C 2 3 (P 0 4 63) (P 0 4 64))))"),
+    ("(|(cn=a*b*c)(sn>=x)(sn<=y)(sn~=z))", "(C 2 1 (C 2 4 (P 0 4 636e) (C 0 16 (P 2 0 61) (P 2 1 62) (P 2 2 63))) (C 2 5 (P 0 4 736e) (P 0 4 78)) (C 2 6 (P 0 4 736e) (P 0 4 79)) (C 2 8 (P 0 4 736e) (P 0 4 7a)))"),
+    ("(cn=\\2a\\00\\ff)", "(C 2 3 (P 0 4 636e) (P 0 4 2a00ff))"),
+    ("(uid=*x)", "(C 2 4 (P 0 4 756964) (C 0 16 (P 2 2 78)))"),
+];
+
+const BAD_FILTERS: &[&str] = &["(", "(cn=a", "", "(cn)", "(&(a=b)", "(a=b))"];
+
+#[derive(Clone, Debug, PartialEq)]
+pub struct RC {
+    oid: Vec<u8>,
+    crit: bool,
+    val: Option<Vec<u8>>,
+}
+
+#[derive(Clone, Debug, PartialEq)]
+pub struct Opts {
+    deref: i64,
+    types_only: bool,
+    time: i64,
+    size: i64,
+}
+
+const DEFAULT_OPTS: Opts = Opts { deref: 0, types_only: false, time: 0, size: 0 };
+
+#[derive(Clone, Debug, PartialEq)]
+pub enum Req {
+    Bind { dn: Vec<u8>, pw: Vec<u8> },
+    SaslExt,
+    /// `filter` = tree text; `fsrc` = filter string handed to the API (asked requests only)
+    Search { base: Vec<u8>, scope: i64, opts: Opts, attrs: Vec<Vec<u8>>, filter: String, fsrc: String },
+    Add { dn: Vec<u8>, attrs: Vec<(Vec<u8>, Vec<Vec<u8>>)> },
+    Compare { dn: Vec<u8>, attr: Vec<u8>, val: Vec<u8> },
+    Delete { dn: Vec<u8> },
+    Modify { dn: Vec<u8>, mods: Vec<(u8, Vec<u8>, Vec<Vec<u8>>)> },
+    ModDn { dn: Vec<u8>, rdn: Vec<u8>, del: bool, sup: Option<Vec<u8>> },
+    Extended { name: Option<Vec<u8>>, val: Option<Vec<u8>> },
+    Unbind,
+    Abandon(i64),
+}
+
+#[derive(Clone, Debug)]
+pub enum Call {
+    Wc(usize, Vec<RC>),
+    Wt(usize, u64),
+    Wo(usize, Opts),
+    /// operation; the flag selects `streaming_search` over `search` for a Search
+    Op(usize, Req, bool),
+    Bad(usize, String),
+    Clone(usize, usize),
+}
+
+/* ---------- canonical text ---------- */
+
+fn opt_hex(o: &Option<Vec<u8>>) -> String {
+    match o {
+        Some(v) => hex(v),
+        None => String::from("none"),
+    }
+}
+
+fn vals_text(vs: &[Vec<u8>], sorted: bool) -> String {
+    let mut v: Vec<&Vec<u8>> = vs.iter().collect();
+    if sorted {
+        v.sort();
+    }
+    v.iter().map(|x| hex(x)).collect::<Vec<_>>().join(",")
+}
+
+fn req_text(r: &Req, sorted: bool) -> String {
+    match r {
+        Req::Bind { dn, pw } => format!("bind {} {}", hex(dn), hex(pw)),
+        Req::SaslExt => String::from("saslext"),
+        Req::Search { base, scope, opts, attrs, filter, .. } => format!(
+            "search {} {} {} {} {} {} {} {}",
+            hex(base),
+            scope,
+            opts.deref,
+            opts.size,
+            opts.time,
+            if opts.types_only { 1 } else { 0 },
+            if attrs.is_empty() { String::from("[]") } else { attrs.iter().map(|a| hex(a)).collect::<Vec<_>>().join(",") },
+            filter
+        ),
+        Req::Add { dn, attrs } => format!(
+            "add {} {}",
+            hex(dn),
+            if attrs.is_empty() {
+                String::from("[]")
+            } else {
+                attrs.iter().map(|(n, vs)| format!("{}={}", hex(n), vals_text(vs, sorted))).collect::<Vec<_>>().join(";")
+            }
+        ),
+        Req::Compare { dn, attr, val } => format!("compare {} {} {}", hex(dn), hex(attr), hex(val)),
+        Req::Delete { dn } => format!("delete {}", hex(dn)),
+        Req::Modify { dn, mods } => format!(
+            "modify {} {}",
+            hex(dn),
+            if mods.is_empty() {
+                String::from("[]")
+            } else {
+                mods.iter().map(|(k, n, vs)| format!("{}:{}={}", k, hex(n), vals_text(vs, sorted))).collect::<Vec<_>>().join(";")
+            }
+        ),
+        Req::ModDn { dn, rdn, del, sup } => format!("moddn {} {} {} {}", hex(dn), hex(rdn), if *del { 1 } else { 0 }, opt_hex(sup)),
+        Req::Extended { name, val } => format!("extended {} {}", opt_hex(name), opt_hex(val)),
+        Req::Unbind => String::from("unbind"),
+        Req::Abandon(i) => format!("abandon {}", i),
+    }
+}
+
+fn ctrls_text(cs: &Option<Vec<RC>>) -> String {
+    match cs {
+        None => String::from("none"),
+        Some(v) => format!(
+            "[{}]",
+            v.iter().map(|c| format!("{}:{}:{}", hex(&c.oid), if c.crit { 1 } else { 0 }, opt_hex(&c.val))).collect::<Vec<_>>().join(",")
+        ),
+    }
+}
+
+fn opts_text(o: &Option<Opts>) -> String {
+    match o {
+        None => String::from("none"),
+        Some(o) => format!("{}:{}:{}:{}", o.deref, if o.types_only { 1 } else { 0 }, o.time, o.size),
+    }
+}
+
+fn tmo_text(t: &Option<u64>) -> String {
+    match t {
+        None => String::from("none"),
+        Some(t) => t.to_string(),
+    }
+}
+
+fn call_text(c: &Call) -> String {
+    match c {
+        Call::Wc(h, cs) => format!("wc {} {}", h, ctrls_text(&Some(cs.clone()))),
+        Call::Wt(h, t) => format!("wt {} {}", h, t),
+        Call::Wo(h, o) => format!("wo {} {} {} {} {}", h, o.deref, if o.types_only { 1 } else { 0 }, o.time, o.size),
+        Call::Op(h, r, _) => format!("op {} {}", h, req_text(r, false)),
+        Call::Bad(h, _) => format!("bad {}", h),
+        Call::Clone(a, b) => format!("clone {} {}", a, b),
+    }
+}
+
+fn call_handle(c: &Call) -> usize {
+    match c {
+        Call::Wc(h, _) | Call::Wt(h, _) | Call::Wo(h, _) | Call::Op(h, _, _) | Call::Bad(h, _) => *h,
+        Call::Clone(_, d) => *d,
+    }
+}
+
+/// the API documentation: which calls must fail locally
+fn must_reject(r: &Req) -> Option<&'static str> {
+    match r {
+        Req::Add { attrs, .. } if attrs.iter().any(|(_, vs)| vs.is_empty()) => Some("refused"),
+        Req::Modify { mods, .. } if mods.iter().any(|(k, _, vs)| *k == 0 && vs.is_empty()) => Some("refused"),
+        Req::Extended { name: None, .. } => Some("panic"),
+        _ => None,
+    }
+}
+
+/* ---------- the harness's own reader of the real bytes (wire order, transcript, Rust oracle) ---------- */
+
+fn twos(v: &[u8]) -> Option<i64> {
+    if v.is_empty() || v.len() > 8 {
+        return None;
+    }
+    let mut x: i64 = if v[0] & 0x80 != 0 { -1 } else { 0 };
+    for b in v {
+        x = (x << 8) | *b as i64;
+    }
+    Some(x)
+}
+
+fn p(t: &StructureTag, c: u8, id: u64) -> Option<&Vec<u8>> {
+    match &t.payload {
+        PL::P(v) if cls_num(t.class) == c && t.id == id => Some(v),
+        _ => None,
+    }
+}
+
+fn k(t: &StructureTag, c: u8, id: u64) -> Option<&Vec<StructureTag>> {
+    match &t.payload {
+        PL::C(v) if cls_num(t.class) == c && t.id == id => Some(v),
+        _ => None,
+    }
+}
+
+fn boolean(t: &StructureTag) -> Option<bool> {
+    let v = p(t, 0, 1)?;
+    if v.len() == 1 {
+        Some(v[0] != 0)
+    } else {
+        None
+    }
+}
+
+fn attribute(t: &StructureTag) -> Option<(Vec<u8>, Vec<Vec<u8>>)> {
+    let ks = k(t, 0, 16)?;
+    if ks.len() != 2 {
+        return None;
+    }
+    let name = p(&ks[0], 0, 4)?.clone();
+    let vals = k(&ks[1], 0, 17)?.iter().map(|v| p(v, 0, 4).cloned()).collect::<Option<Vec<_>>>()?;
+    Some((name, vals))
+}
+
+fn decode_op(op: &StructureTag) -> Option<Req> {
+    if cls_num(op.class) != 1 {
+        return None;
+    }
+    match (op.id, &op.payload) {
+        (0, PL::C(ks)) if ks.len() == 3 => {
+            if twos(p(&ks[0], 0, 2)?)? != 3 {
+                return None;
+            }
+            let dn = p(&ks[1], 0, 4)?.clone();
+            if let Some(pw) = p(&ks[2], 2, 0) {
+                return Some(Req::Bind { dn, pw: pw.clone() });
+            }
+            let s = k(&ks[2], 2, 3)?;
+            if s.len() == 2 && p(&s[0], 0, 4)? == b"EXTERNAL" && p(&s[1], 0, 4)?.is_empty() && dn.is_empty() {
+                return Some(Req::SaslExt);
+            }
+            None
+        }
+        (2, PL::P(v)) if v.is_empty() => Some(Req::Unbind),
+        (3, PL::C(ks)) if ks.len() == 8 => Some(Req::Search {
+            base: p(&ks[0], 0, 4)?.clone(),
+            scope: twos(p(&ks[1], 0, 10)?)?,
+            opts: Opts {
+                deref: twos(p(&ks[2], 0, 10)?)?,
+                size: twos(p(&ks[3], 0, 2)?)?,
+                time: twos(p(&ks[4], 0, 2)?)?,
+                types_only: boolean(&ks[5])?,
+            },
+            filter: tlv(&ks[6]),
+            fsrc: String::new(),
+            attrs: k(&ks[7], 0, 16)?.iter().map(|a| p(a, 0, 4).cloned()).collect::<Option<Vec<_>>>()?,
+        }),
+        (6, PL::C(ks)) if ks.len() == 2 => {
+            let mut mods = vec![];
+            for ch in k(&ks[1], 0, 16)? {
+                let c = k(ch, 0, 16)?;
+                if c.len() != 2 {
+                    return None;
+                }
+                let kind = twos(p(&c[0], 0, 10)?)?;
+                if !(0..=3).contains(&kind) {
+                    return None;
+                }
+                let (n, vs) = attribute(&c[1])?;
+                mods.push((kind as u8, n, vs));
+            }
+            Some(Req::Modify { dn: p(&ks[0], 0, 4)?.clone(), mods })
+        }
+        (8, PL::C(ks)) if ks.len() == 2 => Some(Req::Add {
+            dn: p(&ks[0], 0, 4)?.clone(),
+            attrs: k(&ks[1], 0, 16)?.iter().map(attribute).collect::<Option<Vec<_>>>()?,
+        }),
+        (10, PL::P(v)) => Some(Req::Delete { dn: v.clone() }),
+        (12, PL::C(ks)) if ks.len() == 3 || ks.len() == 4 => Some(Req::ModDn {
+            dn: p(&ks[0], 0, 4)?.clone(),
+            rdn: p(&ks[1], 0, 4)?.clone(),
+            del: boolean(&ks[2])?,
+            sup: if ks.len() == 4 { Some(p(&ks[3], 2, 0)?.clone()) } else { None },
+        }),
+        (14, PL::C(ks)) if ks.len() == 2 => {
+            let ava = k(&ks[1], 0, 16)?;
+            if ava.len() != 2 {
+                return None;
+            }
+            Some(Req::Compare { dn: p(&ks[0], 0, 4)?.clone(), attr: p(&ava[0], 0, 4)?.clone(), val: p(&ava[1], 0, 4)?.clone() })
+        }
+        (16, PL::P(v)) => Some(Req::Abandon(twos(v)?)),
+        (23, PL::C(ks)) if ks.len() == 1 || ks.len() == 2 => Some(Req::Extended {
+            name: Some(p(&ks[0], 2, 0)?.clone()),
+            val: if ks.len() == 2 { Some(p(&ks[1], 2, 1)?.clone()) } else { None },
+        }),
+        _ => None,
+    }
+}
+
+fn decode_ctl(t: &StructureTag) -> Option<RC> {
+    let ks = k(t, 0, 16)?;
+    let oid = p(ks.first()?, 0, 4)?.clone();
+    match ks.len() {
+        1 => Some(RC { oid, crit: false, val: None }),
+        2 => match boolean(&ks[1]) {
+            Some(b) => Some(RC { oid, crit: b, val: None }),
+            None => Some(RC { oid, crit: false, val: Some(p(&ks[1], 0, 4)?.clone()) }),
+        },
+        3 => Some(RC { oid, crit: boolean(&ks[1])?, val: Some(p(&ks[2], 0, 4)?.clone()) }),
+        _ => None,
+    }
+}
+
+pub fn decode_msg(bs: &[u8]) -> Option<(i64, Option<Vec<RC>>, Req)> {
+    let (rest, t) = parse_tag(bs).ok()?;
+    if !rest.is_empty() {
+        return None;
+    }
+    let ks = k(&t, 0, 16)?;
+    if ks.len() != 2 && ks.len() != 3 {
+        return None;
+    }
+    let id = twos(p(&ks[0], 0, 2)?)?;
+    let req = decode_op(&ks[1])?;
+    let ctrls = if ks.len() == 3 { Some(k(&ks[2], 2, 0)?.iter().map(decode_ctl).collect::<Option<Vec<_>>>()?) } else { None };
+    Some((id, ctrls, req))
+}
+
+fn same_multiset(a: &[Vec<u8>], b: &[Vec<u8>]) -> bool {
+    let mut x: Vec<&Vec<u8>> = a.iter().collect();
+    let mut y: Vec<&Vec<u8>> = b.iter().collect();
+    x.sort();
+    y.sort();
+    x == y
+}
+
+/// the asked request with every value set in the order seen on the wire (when it is the same set)
+fn in_wire_order(asked: &Req, wire: &Req) -> Req {
+    match (asked, wire) {
+        (Req::Add { dn, attrs }, Req::Add { attrs: w, .. }) if attrs.len() == w.len() => Req::Add {
+            dn: dn.clone(),
+            attrs: attrs
+                .iter()
+                .zip(w.iter())
+                .map(|((n, vs), (_, ws))| (n.clone(), if same_multiset(vs, ws) { ws.clone() } else { vs.clone() }))
+                .collect(),
+        },
+        (Req::Modify { dn, mods }, Req::Modify { mods: w, .. }) if mods.len() == w.len() => Req::Modify {
+            dn: dn.clone(),
+            mods: mods
+                .iter()
+                .zip(w.iter())
+                .map(|((kd, n, vs), (_, _, ws))| (*kd, n.clone(), if same_multiset(vs, ws) { ws.clone() } else { vs.clone() }))
+                .collect(),
+        },
+        _ => asked.clone(),
+    }
+}
+
+/* ---------- running the real handle ---------- */
+
+fn s(b: &[u8]) -> &str {
+    std::str::from_utf8(b).expect("generator produces UTF-8 where the API takes &str")
+}
+
+fn raw(c: &RC) -> RawControl {
+    RawControl { ctype: s(&c.oid).to_string(), crit: c.crit, val: c.val.clone() }
+}
+
+fn scope_of(n: i64) -> Scope {
+    match n {
+        0 => Scope::Base,
+        1 => Scope::OneLevel,
+        _ => Scope::Subtree,
+    }
+}
+
+fn deref_of(n: i64) -> DerefAliases {
+    match n {
+        0 => DerefAliases::Never,
+        1 => DerefAliases::Searching,
+        2 => DerefAliases::Finding,
+        _ => DerefAliases::Always,
+    }
+}
+
+fn err_word(e: &LdapError) -> String {
+    match e {
+        LdapError::AddNoValues => String::from("refused"),
+        LdapError::FilterParsing => String::from("badfilter"),
+        other => format!("err:{}", format!("{:?}", other).split(|c: char| !c.is_alphanumeric()).next().unwrap_or("?")),
+    }
+}
+
+fn word<T>(r: Result<T, LdapError>) -> String {
+    match r {
+        Ok(_) => String::from("ok"),
+        Err(e) => err_word(&e),
+    }
+}
+
+async fn do_search(ldap: &mut Ldap, base: &str, scope: Scope, filter: &str, attrs: Vec<String>, streaming: bool) -> String {
+    if streaming {
+        match ldap.streaming_search(base, scope, filter, attrs).await {
+            Ok(mut st) => {
+                loop {
+                    match st.next().await {
+                        Ok(Some(_)) => continue,
+                        Ok(None) => break,
+                        Err(e) => return err_word(&e),
+                    }
+                }
+                let res = st.finish().await;
+                if res.rc == 0 { String::from("ok") } else { format!("err:rc{}", res.rc) }
+            }
+            Err(e) => err_word(&e),
+        }
+    } else {
+        match ldap.search(base, scope, filter, attrs).await {
+            Ok(r) => if r.1.rc == 0 { String::from("ok") } else { format!("err:rc{}", r.1.rc) },
+            Err(e) => err_word(&e),
+        }
+    }
+}
+
+async fn do_op(ldap: &mut Ldap, r: &Req, streaming: bool) -> String {
+    match r {
+        Req::Bind { dn, pw } => word(ldap.simple_bind(s(dn), s(pw)).await),
+        Req::SaslExt => word(ldap.sasl_external_bind().await),
+        Req::Search { base, scope, attrs, fsrc, .. } => {
+            let attrs: Vec<String> = attrs.iter().map(|a| s(a).to_string()).collect();
+            do_search(ldap, s(base), scope_of(*scope), fsrc, attrs, streaming).await
+        }
+        Req::Add { dn, attrs } => {
+            let a: Vec<(Vec<u8>, HashSet<Vec<u8>>)> = attrs.iter().map(|(n, vs)| (n.clone(), vs.iter().cloned().collect())).collect();
+            word(ldap.add(s(dn), a).await)
+        }
+        Req::Compare { dn, attr, val } => word(ldap.compare(s(dn), s(attr), val.clone()).await),
+        Req::Delete { dn } => word(ldap.delete(s(dn)).await),
+        Req::Modify { dn, mods } => {
+            let m: Vec<Mod<Vec<u8>>> = mods
+                .iter()
+                .map(|(kd, n, vs)| {
+                    let set: HashSet<Vec<u8>> = vs.iter().cloned().collect();
+                    match kd {
+                        0 => Mod::Add(n.clone(), set),
+                        1 => Mod::Delete(n.clone(), set),
+                        2 => Mod::Replace(n.clone(), set),
+                        _ => Mod::Increment(n.clone(), vs[0].clone()),
+                    }
+                })
+                .collect();
+            word(ldap.modify(s(dn), m).await)
+        }
+        Req::ModDn { dn, rdn, del, sup } => word(ldap.modifydn(s(dn), s(rdn), *del, sup.as_ref().map(|x| s(x))).await),
+        Req::Extended { name, val } => {
+            let exop = Exop { name: name.as_ref().map(|n| s(n).to_string()), val: val.clone() };
+            match AssertUnwindSafe(ldap.extended(exop)).catch_unwind().await {
+                Ok(r) => word(r),
+                Err(_) => String::from("panic"),
+            }
+        }
+        Req::Unbind => word(ldap.unbind().await),
+        Req::Abandon(i) => word(ldap.abandon(*i as i32).await),
+    }
+}
+
+#[derive(Clone, Debug, PartialEq)]
+pub struct Snap {
+    ctrls: Option<Vec<RC>>,
+    tmo: Option<u64>,
+    opts: Option<Opts>,
+}
+
+fn snap(l: &Ldap) -> Snap {
+    Snap {
+        ctrls: l.controls.as_ref().map(|v| v.iter().map(|c| RC { oid: c.ctype.as_bytes().to_vec(), crit: c.crit, val: c.val.clone() }).collect()),
+        tmo: l.timeout.map(|d| d.as_millis() as u64),
+        opts: l.search_opts.as_ref().map(|o| Opts { deref: o.deref as i64, types_only: o.typesonly, time: o.timelimit as i64, size: o.sizelimit as i64 }),
+    }
+}
+
+pub struct Obs {
+    /// every message the server received, in order (the last one is the barrier Unbind unless the script unbound)
+    msgs: Vec<Vec<u8>>,
+    /// per call: outcome word, timeout on the handle just before the call, handle fields just after it
+    per_call: Vec<(String, Option<u64>, Snap)>,
+    barrier: bool,
+}
+
+fn response_for(msg: &[u8]) -> Option<Vec<u8>> {
+    // outer header, then the messageID element verbatim, then the protocolOp identifier octet
+    let hdr = if msg[1] < 0x80 { 2 } else { 2 + (msg[1] & 0x7f) as usize };
+    let idlen = msg[hdr + 1] as usize;
+    let idtlv = &msg[hdr..hdr + 2 + idlen];
+    let resp = match msg[hdr + 2 + idlen] {
+        0x60 => 0x61,
+        0x63 => 0x65,
+        0x66 => 0x67,
+        0x68 => 0x69,
+        0x4a => 0x6b,
+        0x6c => 0x6d,
+        0x6e => 0x6f,
+        0x77 => 0x78,
+        _ => return None,
+    };
+    let mut body = idtlv.to_vec();
+    body.extend([resp, 0x07, 0x0a, 0x01, 0x00, 0x04, 0x00, 0x04, 0x00]);
+    let mut out = vec![0x30, body.len() as u8];
+    out.extend(body);
+    Some(out)
+}
+
+async fn server_task(mut io: tokio::io::DuplexStream) -> Vec<Vec<u8>> {
+    let mut acc: Vec<u8> = vec![];
+    let mut msgs = vec![];
+    let mut buf = vec![0u8; 1 << 16];
+    loop {
+        let n = match io.read(&mut buf).await {
+            Ok(0) | Err(_) => break,
+            Ok(n) => n,
+        };
+        acc.extend_from_slice(&buf[..n]);
+        while let Some(total) = outer_total(&acc) {
+            if acc.len() < total {
+                break;
+            }
+            let msg: Vec<u8> = acc.drain(..total).collect();
+            if let Some(r) = response_for(&msg) {
+                if io.write_all(&r).await.is_err() {
+                    return msgs;
+                }
+            }
+            msgs.push(msg);
+        }
+    }
+    if !acc.is_empty() {
+        msgs.push(acc); // trailing garbage is reported as a message nobody can decode
+    }
+    msgs
+}
+
+const WATCHDOG: Duration = Duration::from_secs(5);
+
+pub fn run_calls(rt: &tokio::runtime::Runtime, calls: &[Call], last_id: i32) -> Result<Obs, String> {
+    let r = rt.block_on(async {
+        let (client, server) = tokio::io::duplex(1 << 22);
+        let (conn, ldap) = LdapConnAsync::verif_pair(Box::new(client));
+        ldap.verif_set_msgmap(last_id, &[]);
+        let drv = tokio::spawn(async move {
+            let _ = conn.drive().await;
+        });
+        let srv = tokio::spawn(server_task(server));
+        let mut handles: BTreeMap<usize, Ldap> = BTreeMap::new();
+        handles.insert(0, ldap);
+        let mut per_call = vec![];
+        let mut unbound = false;
+        for c in calls {
+            let h = call_handle(c);
+            let fut = async {
+                match c {
+                    Call::Wc(h, cs) => {
+                        handles.get_mut(h).unwrap().with_controls(cs.iter().map(raw).collect::<Vec<_>>());
+                        (String::from("-"), None)
+                    }
+                    Call::Wt(h, t) => {
+                        handles.get_mut(h).unwrap().with_timeout(Duration::from_millis(*t));
+                        (String::from("-"), None)
+                    }
+                    Call::Wo(h, o) => {
+                        let so = SearchOptions::new().deref(deref_of(o.deref)).typesonly(o.types_only).timelimit(o.time as i32).sizelimit(o.size as i32);
+                        handles.get_mut(h).unwrap().with_search_options(so);
+                        (String::from("-"), None)
+                    }
+                    Call::Clone(a, b) => {
+                        let c = handles.get(a).unwrap().clone();
+                        handles.insert(*b, c);
+                        (String::from("-"), None)
+                    }
+                    Call::Bad(h, f) => {
+                        let l = handles.get_mut(h).unwrap();
+                        let pre = l.timeout.map(|d| d.as_millis() as u64);
+                        (do_search(l, "", Scope::Base, f, vec![], false).await, pre)
+                    }
+                    Call::Op(h, r, streaming) => {
+                        let l = handles.get_mut(h).unwrap();
+                        let pre = l.timeout.map(|d| d.as_millis() as u64);
+                        (do_op(l, r, *streaming).await, pre)
+                    }
+                }
+            };
+            let (w, pre) = match tokio::time::timeout(WATCHDOG, fut).await {
+                Ok(x) => x,
+                Err(_) => return Err(format!("watchdog: call `{}` did not complete", call_text(c))),
+            };
+            if let Call::Op(_, Req::Unbind, _) = c {
+                if w == "ok" {
+                    unbound = true;
+                }
+            }
+            per_call.push((w, pre, snap(handles.get(&h).unwrap())));
+        }
+        // barrier: an Unbind on a fresh clone ends the conversation; the server then sees EOF
+        let mut barrier = false;
+        if !unbound {
+            let mut b = handles.values().next().unwrap().clone();
+            match tokio::time::timeout(WATCHDOG, b.unbind()).await {
+                Ok(Ok(())) => barrier = true,
+                _ => return Err(String::from("barrier unbind failed")),
+            }
+        }
+        drop(handles);
+        let msgs = match tokio::time::timeout(WATCHDOG, srv).await {
+            Ok(Ok(m)) => m,
+            _ => return Err(String::from("watchdog: server task did not see EOF")),
+        };
+        let _ = tokio::time::timeout(WATCHDOG, drv).await;
+        Ok(Obs { msgs, per_call, barrier })
+    });
+    let _ = ldap3::verif::verif_take_trace();
+    r
+}
+
+/* ---------- generators ---------- */
+
+fn gen_text(rng: &mut Rng, occasionally_big: bool) -> Vec<u8> {
+    match rng.below(40) {
+        0 => vec![],
+        1 => b"\0".to_vec(),
+        2 if occasionally_big => vec![b'a' + rng.below(26) as u8; *rng.pick(&[127usize, 128, 255, 256, 65535, 65536, 71000])],
+        3..=8 => format!("cn=u{},ou=p{},dc=example,dc=org", rng.below(1000), rng.below(10)).into_bytes(),
+        _ => crate::gen::utf8_string(rng, 24),
+    }
+}
+
+fn gen_bytes(rng: &mut Rng, occasionally_big: bool) -> Vec<u8> {
+    match rng.below(40) {
+        0 => vec![],
+        1 => vec![0],
+        2 => vec![0xff, 0xfe, 0x80],
+        3 if occasionally_big => vec![rng.next() as u8; *rng.pick(&[127usize, 128, 255, 256, 65535, 65536, 71680])],
+        4..=10 => crate::gen::utf8_string(rng, 12),
+        _ => {
+            let n = rng.below(20) as usize;
+            rng.bytes(n)
+        }
+    }
+}
+
+fn gen_set(rng: &mut Rng, min: usize, big: bool) -> Vec<Vec<u8>> {
+    let n = match rng.below(20) {
+        0 => 30,
+        1..=4 => 0,
+        5..=12 => 1,
+        _ => rng.range(2, 6) as usize,
+    }
+    .max(min);
+    let mut seen: HashSet<Vec<u8>> = HashSet::new();
+    let mut out = vec![];
+    let mut tries = 0;
+    while out.len() < n && tries < 200 {
+        tries += 1;
+        let v = gen_bytes(rng, big);
+        if seen.insert(v.clone()) {
+            out.push(v);
+        }
+    }
+    out
+}
+
+fn gen_count(rng: &mut Rng) -> usize {
+    match rng.below(40) {
+        0 | 1 => 200,
+        2 => rng.range(50, 199) as usize,
+        3..=5 => 0,
+        _ => rng.range(1, 6) as usize,
+    }
+}
+
+const LIMITS: &[i64] = &[0, 1, 127, 128, 255, 256, 32767, 32768, 65535, 8388607, 8388608, 2147483647, -1, -128, -129, -32768, -32769, -2147483648];
+
+fn gen_limit(rng: &mut Rng) -> i64 {
+    if rng.chance(1, 5) { rng.next() as i32 as i64 } else { *rng.pick(LIMITS) }
+}
+
+fn gen_opts(rng: &mut Rng) -> Opts {
+    Opts { deref: rng.below(4) as i64, types_only: rng.chance(1, 2), time: gen_limit(rng), size: gen_limit(rng) }
+}
+
+pub fn gen_ctrls(rng: &mut Rng) -> Vec<RC> {
+    let n = rng.below(6) as usize;
+    let big = rng.chance(1, 8);
+    (0..n)
+        .map(|_| RC {
+            oid: if rng.chance(1, 6) { crate::gen::utf8_string(rng, 8) } else { format!("1.3.6.1.4.1.{}.{}", rng.below(70000), rng.below(9)).into_bytes() },
+            crit: rng.chance(1, 2),
+            val: if rng.chance(1, 2) { Some(gen_bytes(rng, big)) } else { None },
+        })
+        .collect()
+}
+
+/// a request the API accepts (`big` allows 70 KiB values and 200 attributes)
+fn gen_req(rng: &mut Rng, kind: u64, big: bool) -> Req {
+    match kind {
+        0 => Req::Bind { dn: gen_text(rng, big), pw: gen_text(rng, big) },
+        1 => Req::SaslExt,
+        2 => {
+            let (fsrc, ftree) = *rng.pick(FILTERS);
+            let n = if big { gen_count(rng) } else { rng.below(4) as usize };
+            Req::Search {
+                base: gen_text(rng, big),
+                scope: rng.below(3) as i64,
+                opts: DEFAULT_OPTS,
+                attrs: (0..n).map(|_| gen_text(rng, false)).collect(),
+                filter: ftree.to_string(),
+                fsrc: fsrc.to_string(),
+            }
+        }
+        3 => {
+            let n = if big { gen_count(rng) } else { rng.below(4) as usize };
+            Req::Add { dn: gen_text(rng, big), attrs: (0..n).map(|_| (gen_bytes(rng, false), if big { gen_set(rng, 1, n < 20) } else { vec![gen_bytes(rng, false)] })).collect() }
+        }
+        4 => Req::Compare { dn: gen_text(rng, big), attr: gen_text(rng, false), val: gen_bytes(rng, big) },
+        5 => Req::Delete { dn: gen_text(rng, big) },
+        6 => {
+            let n = if big { gen_count(rng) } else { rng.below(4) as usize };
+            Req::Modify {
+                dn: gen_text(rng, big),
+                mods: (0..n)
+                    .map(|_| {
+                        let kd = rng.below(4) as u8;
+                        let name = gen_bytes(rng, false);
+                        let vs = match kd {
+                            3 => vec![gen_bytes(rng, false)],
+                            0 => if big { gen_set(rng, 1, n < 20) } else { vec![gen_bytes(rng, false)] },
+                            _ => if big { gen_set(rng, 0, n < 20) } else if rng.chance(1, 2) { vec![] } else { vec![gen_bytes(rng, false)] },
+                        };
+                        (kd, name, vs)
+                    })
+                    .collect(),
+            }
+        }
+        7 => Req::ModDn { dn: gen_text(rng, big), rdn: gen_text(rng, false), del: rng.chance(1, 2), sup: if rng.chance(1, 2) { Some(gen_text(rng, big)) } else { None } },
+        8 => Req::Extended { name: Some(if rng.chance(1, 2) { b"1.3.6.1.4.1.4203.1.11.3".to_vec() } else { gen_text(rng, false) }), val: if rng.chance(1, 2) { Some(gen_bytes(rng, big)) } else { None } },
+        9 => Req::Unbind,
+        _ => Req::Abandon(gen_limit(rng)),
+    }
+}
+
+/// a request the API must refuse locally
+fn gen_refused(rng: &mut Rng) -> Req {
+    match rng.below(5) {
+        0 | 1 => {
+            let mut attrs: Vec<(Vec<u8>, Vec<Vec<u8>>)> = (0..rng.below(3)).map(|_| (gen_bytes(rng, false), vec![gen_bytes(rng, false)])).collect();
+            let at = rng.below(attrs.len() as u64 + 1) as usize;
+            attrs.insert(at, (gen_bytes(rng, false), vec![]));
+            Req::Add { dn: gen_text(rng, false), attrs }
+        }
+        2 | 3 => {
+            let mut mods: Vec<(u8, Vec<u8>, Vec<Vec<u8>>)> = (0..rng.below(3)).map(|_| (rng.below(3) as u8, gen_bytes(rng, false), vec![gen_bytes(rng, false)])).collect();
+            let at = rng.below(mods.len() as u64 + 1) as usize;
+            mods.insert(at, (0, gen_bytes(rng, false), vec![]));
+            Req::Modify { dn: gen_text(rng, false), mods }
+        }
+        _ => Req::Extended { name: None, val: if rng.chance(1, 2) { Some(gen_bytes(rng, false)) } else { None } },
+    }
+}
+
+const LAST_IDS: &[i32] = &[0, 0, 0, 5, 126, 127, 254, 255, 32766, 32767, 65534, 8388606, 8388607, 2147483644];
+
+/* ---------- part A: single requests ---------- */
+
+fn short(sx: &str) -> String {
+    if sx.len() > 200 { format!("{}…({} chars)", &sx[..200], sx.len()) } else { sx.to_string() }
+}
+
+fn single(out: &mut Out, rt: &tokio::runtime::Runtime, rng: &mut Rng, req: Req, ctrls: Option<Vec<RC>>, opts: Option<Opts>, last_id: i32) {
+    let mut calls = vec![];
+    if let Some(cs) = &ctrls {
+        calls.push(Call::Wc(0, cs.clone()));
+    }
+    if let Some(o) = &opts {
+        calls.push(Call::Wo(0, o.clone()));
+    }
+    // what is asked, completely: a Search goes out with the options set (or the defaults), any other request ignores them
+    let asked = match &req {
+        Req::Search { base, scope, attrs, filter, fsrc, .. } => Req::Search {
+            base: base.clone(),
+            scope: *scope,
+            opts: opts.clone().unwrap_or(DEFAULT_OPTS),
+            attrs: attrs.clone(),
+            filter: filter.clone(),
+            fsrc: fsrc.clone(),
+        },
+        r => r.clone(),
+    };
+    calls.push(Call::Op(0, req.clone(), rng.chance(1, 2)));
+    let id = last_id as i64 + 1;
+    let canon = format!("{} {} {}", id, ctrls_text(&ctrls), req_text(&asked, true));
+    let kind = canon.split(' ').nth(2).unwrap_or("?").to_string();
+    out.case(&canon, true);
+    out.stat(&format!("single.{}", kind));
+    let nattrs = match &req {
+        Req::Add { attrs, .. } => Some(attrs.len()),
+        Req::Modify { mods, .. } => Some(mods.len()),
+        Req::Search { attrs, .. } => Some(attrs.len()),
+        _ => None,
+    };
+    if let Some(n) = nattrs {
+        out.stat(&format!("single.listlen.{}", match n { 0 => "0", 1..=6 => "1-6", 7..=199 => "7-199", _ => "200" }));
+    }
+    out.stat(&format!("single.ctrls.{}", match &ctrls { None => String::from("none"), Some(v) => v.len().to_string() }));
+    let desc = short(&canon);
+    let obs = match run_calls(rt, &calls, last_id) {
+        Ok(o) => o,
+        Err(e) => {
+            out.r(&format!("requests.completes {}", desc), false, &e);
+            return;
+        }
+    };
+    let outcome = obs.per_call.last().map(|x| x.0.clone()).unwrap_or_default();
+    let is_unbind = matches!(req, Req::Unbind);
+    let expect_n = if is_unbind { 1 } else { 2 };
+    let shape_ok = outcome == "ok" && obs.msgs.len() == expect_n && (is_unbind || obs.barrier);
+    out.r(&format!("requests.one-message {}", desc), shape_ok, &format!("outcome={} messages={}", outcome, obs.msgs.len()));
+    if obs.msgs.is_empty() {
+        return;
+    }
+    let real = &obs.msgs[0];
+    let size_class = match real.len() { 0..=127 => "<128", 128..=255 => "<256", 256..=65535 => "<64K", _ => ">=64K" };
+    out.stat(&format!("single.size.{}", size_class));
+    // O: the independent reader on the real bytes
+    out.o(&format!("spec.req.dec {}", hex(real)), &canon);
+    // M: the model's encoder on the request, value sets in the order the real code wrote them
+    let wire = decode_msg(real);
+    let reexpr = match &wire {
+        Some((_, _, w)) => in_wire_order(&asked, w),
+        None => asked.clone(),
+    };
+    out.m(&format!("req.enc {} {} {}", id, ctrls_text(&ctrls), req_text(&reexpr, false)), &hex(real));
+    // R: the harness's own reading agrees too (third opinion, cheap)
+    let third = match &wire {
+        Some((i, c, w)) => *i == id && *c == ctrls && req_text(w, true) == req_text(&asked, true),
+        None => false,
+    };
+    out.r(&format!("requests.rust-reader {}", desc), third, "the lane's own decoder reads something else");
+    if !is_unbind && obs.msgs.len() == 2 {
+        let b = decode_msg(&obs.msgs[1]);
+        let ok = matches!(&b, Some((i, None, Req::Unbind)) if *i == id + 1);
+        out.r(&format!("requests.next-op-clean {}", desc), ok, "the operation after it does not have the next ID / carries controls");
+    }
+}
+
+fn single_refused(out: &mut Out, rt: &tokio::runtime::Runtime, req: Req, last_id: i32) {
+    let want = must_reject(&req).unwrap_or("?");
+    let text = req_text(&req, false);
+    out.case(&format!("refused {}", text), true);
+    out.stat(&format!("refused.{}", text.split(' ').next().unwrap_or("?")));
+    let calls = vec![Call::Op(0, req.clone(), false)];
+    match run_calls(rt, &calls, last_id) {
+        Err(e) => out.r(&format!("requests.refused-sends-nothing {}", short(&text)), false, &e),
+        Ok(obs) => {
+            let w = obs.per_call[0].0.clone();
+            // only the barrier was sent, and it got the very next ID: the refused call allocated none
+            let only_barrier = obs.msgs.len() == 1 && matches!(decode_msg(&obs.msgs[0]), Some((i, None, Req::Unbind)) if i == last_id as i64 + 1);
+            out.r(&format!("requests.refused-sends-nothing {}", short(&text)), w == want && only_barrier, &format!("outcome={} messages={}", w, obs.msgs.len()));
+            out.m(&format!("handle.run {}", call_text(&calls[0])), &format!("{} h0={}", w, snap_text(&obs.per_call[0].2)));
+        }
+    }
+}
+
+fn snap_text(sn: &Snap) -> String {
+    format!("{}/{}/{}", ctrls_text(&sn.ctrls), tmo_text(&sn.tmo), opts_text(&sn.opts))
+}
+
+/* ---------- part B: scripts ---------- */
+
+fn gen_script(rng: &mut Rng) -> Vec<Call> {
+    let n = rng.range(1, 12) as usize;
+    let mut live: Vec<usize> = vec![0];
+    let mut calls = vec![];
+    for i in 0..n {
+        let h = *rng.pick(&live);
+        let c = match rng.below(20) {
+            0..=3 => Call::Wc(h, gen_ctrls(rng)),
+            4..=5 => Call::Wt(h, 60_000 + rng.below(1000) * 1000),
+            6..=8 => Call::Wo(h, gen_opts(rng)),
+            9 => {
+                let dst = if rng.chance(1, 4) { *rng.pick(&live) } else { live.len() };
+                if !live.contains(&dst) {
+                    live.push(dst);
+                }
+                Call::Clone(h, dst)
+            }
+            10 => Call::Bad(h, rng.pick(BAD_FILTERS).to_string()),
+            11..=12 => Call::Op(h, gen_refused(rng), false),
+            13..=15 => Call::Op(h, gen_req(rng, 2, false), rng.chance(1, 2)),
+            _ => {
+                let kind = *rng.pick(&[0u64, 1, 3, 4, 5, 6, 7, 8, 10, 9]);
+                if kind == 9 && i + 1 != n {
+                    Call::Op(h, gen_req(rng, 5, false), false)
+                } else {
+                    Call::Op(h, gen_req(rng, kind, false), false)
+                }
+            }
+        };
+        calls.push(c);
+    }
+    calls
+}
+
+/// the observed transcript in the driver's format, and the decoded messages per call
+fn transcript(calls: &[Call], obs: &Obs) -> (String, Vec<Option<(i64, Option<Vec<RC>>, Req)>>, usize) {
+    let n_script_msgs = if obs.barrier { obs.msgs.len().saturating_sub(1) } else { obs.msgs.len() };
+    let mut next = 0usize;
+    let mut items = vec![];
+    let mut per_call_msg = vec![];
+    for (c, (w, pre, sn)) in calls.iter().zip(obs.per_call.iter()) {
+        let h = call_handle(c);
+        let mut m = None;
+        let what = match c {
+            Call::Op(..) if w == "ok" => {
+                if next < n_script_msgs {
+                    let d = decode_msg(&obs.msgs[next]);
+                    next += 1;
+                    let t = match &d {
+                        Some((id, cs, r)) => format!("sent {} {} {} {}", id, ctrls_text(cs), tmo_text(pre), req_text(r, false)),
+                        None => String::from("sent unreadable"),
+                    };
+                    m = d;
+                    t
+                } else {
+                    String::from("ok-but-nothing-sent")
+                }
+            }
+            Call::Op(..) => w.clone(),
+            Call::Bad(..) => if w == "badfilter" { String::from("-") } else { format!("bad-filter-outcome:{}", w) },
+            _ => w.clone(),
+        };
+        per_call_msg.push(m);
+        items.push(format!("{} h{}={}", what, h, snap_text(sn)));
+    }
+    let extra = n_script_msgs - next;
+    let mut t = items.join(" | ");
+    if extra > 0 {
+        t.push_str(&format!(" | EXTRA-MESSAGES {}", extra));
+    }
+    (t, per_call_msg, extra)
+}
+
+/// The one-shot law on the observed transcript.  `strict`: every invoked operation uses the modifiers up;
+/// otherwise: an operation refused locally leaves them.  Returns the first discrepancy.
+fn law(calls: &[Call], obs: &Obs, msgs: &[Option<(i64, Option<Vec<RC>>, Req)>], first_id: i64, strict: bool) -> Option<String> {
+    let mut pending: BTreeMap<usize, Snap> = BTreeMap::new();
+    let empty = Snap { ctrls: None, tmo: None, opts: None };
+    let mut id = first_id;
+    for (i, c) in calls.iter().enumerate() {
+        let h = call_handle(c);
+        let cur = pending.get(&h).cloned().unwrap_or(empty.clone());
+        match c {
+            Call::Wc(_, cs) => { pending.insert(h, Snap { ctrls: Some(cs.clone()), ..cur }); }
+            Call::Wt(_, t) => { pending.insert(h, Snap { tmo: Some(*t), ..cur }); }
+            Call::Wo(_, o) => { pending.insert(h, Snap { opts: Some(o.clone()), ..cur }); }
+            Call::Clone(_, d) => { pending.insert(*d, empty.clone()); }
+            Call::Bad(..) => {
+                if msgs[i].is_some() || obs.per_call[i].0 != "badfilter" {
+                    return Some(format!("call {}: a search with an unparsable filter did something ({})", i, obs.per_call[i].0));
+                }
+                pending.insert(h, empty.clone());
+            }
+            Call::Op(_, r, _) => {
+                if let Some(want) = must_reject(r) {
+                    if msgs[i].is_some() || obs.per_call[i].0 != want {
+                        return Some(format!("call {}: a call that must be refused was not ({})", i, obs.per_call[i].0));
+                    }
+                    if strict {
+                        pending.insert(h, empty.clone());
+                    }
+                } else {
+                    let (mid, mcs, mreq) = match &msgs[i] {
+                        Some(x) => x,
+                        None => return Some(format!("call {}: no readable message for an accepted operation ({})", i, obs.per_call[i].0)),
+                    };
+                    if *mid != id {
+                        return Some(format!("call {}: message ID {} instead of {}", i, mid, id));
+                    }
+                    id += 1;
+                    if *mcs != cur.ctrls {
+                        return Some(format!("call {}: carries controls {} but {} are pending", i, ctrls_text(mcs), ctrls_text(&cur.ctrls)));
+                    }
+                    if obs.per_call[i].1 != cur.tmo {
+                        return Some(format!("call {}: runs with timeout {} but {} is pending", i, tmo_text(&obs.per_call[i].1), tmo_text(&cur.tmo)));
+                    }
+                    let asked = match r {
+                        Req::Search { base, scope, attrs, filter, .. } => Req::Search {
+                            base: base.clone(),
+                            scope: *scope,
+                            opts: cur.opts.clone().unwrap_or(DEFAULT_OPTS),
+                            attrs: attrs.clone(),
+                            filter: filter.clone(),
+                            fsrc: String::new(),
+                        },
+                        r => r.clone(),
+                    };
+                    if req_text(mreq, true) != req_text(&asked, true) {
+                        return Some(format!("call {}: sent `{}` but `{}` was invoked", i, short(&req_text(mreq, true)), short(&req_text(&asked, true))));
+                    }
+                    pending.insert(h, empty.clone());
+                }
+            }
+        }
+        let exp = pending.get(&h).cloned().unwrap_or(empty.clone());
+        if obs.per_call[i].2 != exp {
+            return Some(format!("call {}: handle {} holds {} afterwards, the law says {}", i, h, snap_text(&obs.per_call[i].2), snap_text(&exp)));
+        }
+    }
+    None
+}
+
+fn script_case(out: &mut Out, rt: &tokio::runtime::Runtime, calls: &[Call], label: &str) {
+    let text = calls.iter().map(call_text).collect::<Vec<_>>().join(" | ");
+    let nontrivial = calls.iter().any(|c| matches!(c, Call::Op(..))) && calls.iter().any(|c| matches!(c, Call::Wc(..) | Call::Wt(..) | Call::Wo(..)));
+    out.case(&text, nontrivial);
+    out.stat(&format!("{}.len{:02}", label, calls.len()));
+    for c in calls {
+        out.stat(&format!("{}.call.{}", label, match c {
+            Call::Wc(..) => "with_controls",
+            Call::Wt(..) => "with_timeout",
+            Call::Wo(..) => "with_search_options",
+            Call::Clone(..) => "clone",
+            Call::Bad(..) => "search-bad-filter",
+            Call::Op(_, r, _) => if must_reject(r).is_some() { "op-refused" } else if matches!(r, Req::Search { .. }) { "op-search" } else { "op-other" },
+        }));
+    }
+    let desc = short(&text);
+    let obs = match run_calls(rt, calls, 0) {
+        Ok(o) => o,
+        Err(e) => {
+            out.r(&format!("requests.script-completes {}", desc), false, &e);
+            return;
+        }
+    };
+    let (tr, msgs, extra) = transcript(calls, &obs);
+    out.m(&format!("handle.run {}", text), &tr);
+    // every message of the script also goes through the independent reader (O) — IDs, controls, operation
+    let mut k_msg = 0;
+    for (i, m) in msgs.iter().enumerate() {
+        if let Some((id, cs, r)) = m {
+            let _ = i;
+            out.o(&format!("spec.req.dec {}", hex(&obs.msgs[k_msg])), &format!("{} {} {}", id, ctrls_text(cs), req_text(r, true)));
+            k_msg += 1;
+        } else if matches!(&calls[i], Call::Op(..)) && obs.per_call[i].0 == "ok" {
+            k_msg += 1;
+        }
+    }
+    let verdict = if extra > 0 {
+        Some(format!("{} message(s) on the wire that no call accounts for", extra))
+    } else {
+        law(calls, &obs, &msgs, 1, true)
+    };
+    match verdict {
+        None => out.r(&format!("requests.one-shot {}", desc), true, ""),
+        Some(d) => {
+            // is the discrepancy exactly "modifiers survive a locally refused operation"?
+            let weaker = if extra > 0 { Some(String::new()) } else { law(calls, &obs, &msgs, 1, false) };
+            let tag = if weaker.is_none() { "modifiers-survive-refused-op" } else { "other" };
+            out.stat(&format!("{}.law-fails.{}", label, tag));
+            out.r(&format!("requests.one-shot {}", desc), false, &format!("{}: {}", tag, d));
+        }
+    }
+}
+
+pub fn run(thorough: bool, mut rng: Rng, mut out: Out) {
+    let rt = tokio::runtime::Builder::new_current_thread().enable_all().build().expect("tokio runtime");
+    let rc = |o: &str, crit: bool, val: Option<&[u8]>| RC { oid: o.as_bytes().to_vec(), crit, val: val.map(|v| v.to_vec()) };
+    // corpus: the F10 witness (search options before a non-search operation), and modifiers before refused calls
+    let f = |i: usize| Req::Search { base: b"dc=x".to_vec(), scope: 2, opts: DEFAULT_OPTS, attrs: vec![b"cn".to_vec()], filter: FILTERS[i].1.to_string(), fsrc: FILTERS[i].0.to_string() };
+    let o1 = Opts { deref: 3, types_only: true, time: 7, size: 9 };
+    let corpus: Vec<Vec<Call>> = vec![
+        vec![Call::Wo(0, o1.clone()), Call::Op(0, Req::Delete { dn: b"o=x".to_vec() }, false), Call::Op(0, f(0), false)],
+        vec![Call::Wc(0, vec![rc("1.2", true, None)]), Call::Op(0, Req::Add { dn: b"o=x".to_vec(), attrs: vec![(b"cn".to_vec(), vec![])] }, false), Call::Op(0, Req::Delete { dn: b"o=x".to_vec() }, false)],
+        vec![Call::Wt(0, 500_000), Call::Wo(0, o1.clone()), Call::Op(0, Req::Modify { dn: b"o=x".to_vec(), mods: vec![(0, b"cn".to_vec(), vec![])] }, false), Call::Op(0, f(1), true)],
+        vec![Call::Wc(0, vec![rc("1.2", false, Some(b"v"))]), Call::Op(0, Req::Extended { name: None, val: None }, false), Call::Op(0, Req::Compare { dn: b"o=x".to_vec(), attr: b"cn".to_vec(), val: vec![0] }, false)],
+        vec![Call::Wc(0, vec![rc("1.2", false, None)]), Call::Wt(0, 90_000), Call::Wo(0, o1.clone()), Call::Bad(0, String::from("(cn=")), Call::Op(0, f(2), false)],
+        vec![Call::Wc(0, vec![rc("1.2", false, None)]), Call::Clone(0, 1), Call::Op(1, Req::Delete { dn: b"o=y".to_vec() }, false), Call::Op(0, Req::Delete { dn: b"o=x".to_vec() }, false), Call::Op(0, Req::Delete { dn: b"o=z".to_vec() }, false)],
+        vec![Call::Wc(0, vec![]), Call::Wc(0, vec![rc("2.16.840.1.113730.3.4.2", true, None), rc("1.2.3", false, Some(b""))]), Call::Op(0, f(3), true), Call::Op(0, f(4), false), Call::Op(0, Req::Unbind, false)],
+        vec![Call::Wo(0, o1.clone()), Call::Op(0, f(5), true), Call::Op(0, f(5), false)],
+    ];
+    for c in &corpus {
+        script_case(&mut out, &rt, c, "corpus");
+    }
+    // part A: single requests of every kind
+    let n_single = if thorough { 100_000 } else { 5_000 };
+    for i in 0..n_single {
+        let kind = (i % 11) as u64;
+        let big = rng.chance(1, if thorough { 40 } else { 12 });
+        let req = gen_req(&mut rng, kind, big);
+        let ctrls = match rng.below(4) {
+            0 => None,
+            _ => Some(gen_ctrls(&mut rng)),
+        };
+        let opts = if kind == 2 { if rng.chance(3, 4) { Some(gen_opts(&mut rng)) } else { None } } else if rng.chance(1, 10) { Some(gen_opts(&mut rng)) } else { None };
+        let last_id = *rng.pick(LAST_IDS);
+        single(&mut out, &rt, &mut rng, req, ctrls, opts, last_id);
+    }
+    // limits and IDs exhaustively over the table
+    for &l in LIMITS {
+        for &last in &[0i32, 127, 32767] {
+            let o = Opts { deref: l.rem_euclid(4), types_only: l % 2 == 0, time: l, size: -(l + 1) };
+            single(&mut out, &rt, &mut rng, f(0), None, Some(o), last);
+            single(&mut out, &rt, &mut rng, Req::Abandon(l), None, None, last);
+        }
+    }
+    let n_ref = if thorough { 5_000 } else { 200 };
+    for _ in 0..n_ref {
+        let r = gen_refused(&mut rng);
+        let last_id = *rng.pick(LAST_IDS);
+        single_refused(&mut out, &rt, r, last_id);
+    }
+    // part B: handle-call scripts
+    let n_scripts = if thorough { 30_000 } else { 1_500 };
+    for _ in 0..n_scripts {
+        let sc = gen_script(&mut rng);
+        script_case(&mut out, &rt, &sc, "script");
+    }
+    out.finish("single requests of all 11 kinds through the real Ldap handle on a duplex transport (arbitrary UTF-8 DNs incl. empty/NUL, arbitrary byte values incl. empty/00/non-UTF-8, 0..200 attributes, value sets up to 30, values up to 70 KiB, 0..5 controls incl. Some([]), all scopes/derefs, limits and abandon IDs over a boundary table + random i32, message IDs across the 1/2/3/4-octet boundaries, both search() and streaming_search()); locally refused adds/modifies/exops; scripts of 1..12 handle calls (modifiers in random combination, clones incl. re-cloning onto a live name, refused calls, unparsable filters); non-trivial = a request was issued (scripts: at least one modifier and one operation); distinct by FNV of the canonical text");
 }
